@@ -10,6 +10,18 @@ CLI_TARGET = os.path.join(VERIF, 'target-cli')
 CLI = os.path.join(CLI_TARGET, 'debug', 'resynth')
 MODEL = os.path.join(LEAN, '.lake', 'build', 'bin', 'resynth_model')
 ENV = dict(os.environ, CARGO_NET_OFFLINE='true', CARGO_TERM_COLOR='never')
+CARGO = ['cargo']
+HARNESS_TARGET = None
+# Coverage mode (tools/coverage.sh): instrumented builds in a scratch directory, never used by a registered command.
+COV = os.environ.get('VERIF_COVERAGE')
+if COV:
+    HARNESS_TARGET = os.path.join(COV, 'target-h')
+    HARNESS = os.path.join(HARNESS_TARGET, 'debug', 'harness')
+    CLI_TARGET = os.path.join(COV, 'target-cli')
+    CLI = os.path.join(CLI_TARGET, 'debug', 'resynth')
+    CARGO = ['cargo', '+nightly']
+    ENV['RUSTFLAGS'] = '--cfg resynth_verif -C instrument-coverage'
+    ENV['LLVM_PROFILE_FILE'] = os.environ['LLVM_PROFILE_FILE'] = os.path.join(COV, 'prof', '%p-%m.profraw')
 
 
 class Rng:
@@ -89,14 +101,14 @@ def build_harness():
     seed = os.path.join(HARNESS_DIR, 'Cargo.lock.seed')
     if not os.path.exists(lock):
         shutil.copy(src if os.path.exists(src) else seed, lock)
-    rc, out = run(['cargo', 'build', '--offline'], cwd=HARNESS_DIR)
+    rc, out = run(CARGO + ['build', '--offline'] + (['--target-dir', HARNESS_TARGET] if HARNESS_TARGET else []), cwd=HARNESS_DIR)
     if rc != 0:
         raise BuildError('harness build failed', out)
     _built['harness'] = True
 
 def build_cli():
     if 'cli' in _built: return
-    rc, out = run(['cargo', 'build', '--offline', '--manifest-path', os.path.join(REPO, 'Cargo.toml'),
+    rc, out = run(CARGO + ['build', '--offline', '--manifest-path', os.path.join(REPO, 'Cargo.toml'),
                    '--target-dir', CLI_TARGET])
     if rc != 0:
         raise BuildError('resynth build failed', out)
